@@ -394,7 +394,7 @@ func runFollower(e *env, idx int, bin string, senv []string, rng *rand.Rand) {
 		xs = append(xs, o)
 	}
 	p := q.newObj(q.key, "p", 40)
-	q.opSet(p, 1200*time.Millisecond)
+	q.opSet(p, T) // same T: the follower-read guard t_follow+T covers it
 	if !q.aborted {
 		q.opPersist(p)
 	}
@@ -504,6 +504,69 @@ func runFollower(e *env, idx int, bin string, senv []string, rng *rand.Rand) {
 
 func mkdirAll(d string) error { return os.MkdirAll(d, 0o755) }
 
+// runRearm (opt-in, env C14_REARM=1): an object whose server is restarted shortly
+// before the deadline. The log holds the relative `EX seconds`, so the replay
+// starts a new TTL at load time; the object is then served more than 5 s past its
+// deadline. Off by default: it is outside the 0.3-3 s workload of the design and
+// fires on the pinned tree (key restart:ttl-rearmed).
+func runRearm(e *env, bin string, senv []string) {
+	q := &seqRun{scn: newScn(e, "rearm", "rearm"), key: "krearm"}
+	s, err := srv.Start(srv.Opts{Bin: bin, Env: senv})
+	if err != nil {
+		e.inconclusive("rearm: server start: " + clip(err.Error(), 300))
+		return
+	}
+	defer func() { s.Kill9() }()
+	q.addr = s.Addr()
+	if q.c, err = dial(q.addr); err != nil {
+		return
+	}
+	T := 6500 * time.Millisecond
+	o := q.newObj(q.key, "a", 0)
+	q.opSet(o, T)
+	if q.aborted {
+		return
+	}
+	q.readOne(o, true, false)
+	q.c.close()
+	q.sleepUntil(o.d.send.Add(T - 700*time.Millisecond))
+	q.note("SIGTERM, restart on the same data directory")
+	if !s.Term(15 * time.Second) {
+		e.inconclusive("rearm: server did not stop")
+		return
+	}
+	if s, err = s.Restart(); err != nil {
+		e.inconclusive("rearm: restart: " + clip(err.Error(), 300))
+		return
+	}
+	if q.c, err = dial(s.Addr()); err != nil {
+		return
+	}
+	defer q.c.close()
+	q.sleepUntil(o.d.lateStart().Add(20 * time.Millisecond))
+	for try := 0; try < 5 && !q.aborted; try++ {
+		ok1, _ := q.ping(q.c)
+		r, rs, rd, err := q.do(q.c, "GET", o.key, o.id)
+		if err != nil {
+			return
+		}
+		ok2, _ := q.ping(q.c)
+		abs, _ := absentReply(r)
+		e.ctx.Eval(1)
+		if abs {
+			e.ctx.Count("rearm_checks_passed", 1)
+			return
+		}
+		if ok1 && ok2 {
+			t, _, _, _ := q.do(q.c, "TTL", o.key, o.id)
+			q.violation("restart:ttl-rearmed", fmt.Sprintf("%s (SET EX %.1f acked at %.1f ms), server restarted ~0.7 s before the deadline: still served by GET sent %.0f ms after t_ack+T (bound 5000 ms, PING within 100 ms); TTL now %s - the replayed `SET .. EX seconds` starts a new TTL at load time; read sent at %.1f ms, reply at %.1f ms",
+				o.name(), T.Seconds(), q.ms(o.d.ack), rs.Sub(o.d.ack.Add(T)).Seconds()*1000, t.String(), q.ms(rs), q.ms(rd)), o, nil)
+			return
+		}
+		time.Sleep(300 * time.Millisecond)
+	}
+}
+
 // ---------------------------------------------------------------- Run
 
 // Run is the C14 check.
@@ -563,6 +626,10 @@ func Run(ctx *core.Ctx) {
 			seed := int64(gidx) * 100
 			wg.Add(1)
 			go func() { defer wg.Done(); g.run(fl, seed) }()
+		}
+		if round == 0 && os.Getenv("C14_REARM") == "1" {
+			wg.Add(1)
+			go func() { defer wg.Done(); runRearm(e, bins[kind], envs[kind]) }()
 		}
 		nfol := ctx.Pick(2, 2)
 		for i := 0; i < nfol; i++ {
